@@ -279,8 +279,11 @@ def _run_shard(args):
         mod, part = _get_part(mod_name, tier, part_name)
         acc = _Acc()
         if part.enumerate is not None:
+            thin = os.environ.get("VERIF_OPT_CHILD") == "1"       # the 'python -O' part of a run takes every 5th enumerated case
             for i, case in enumerate(part.enumerate()):
                 if i % nshards != shard:
+                    continue
+                if thin and (i // nshards) % 5 != 0:
                     continue
                 acc.add(case, safe_evaluate(part, case))
         else:
@@ -392,9 +395,12 @@ def _save_replay(prop_id, part_name, bucket, case, detail, committed=False):
     name = "%s-%016x.json" % ("".join(ch if ch.isalnum() else "_" for ch in bucket)[:60],
                               h64([part_name, case]))
     path = os.path.join(d, name)
+    rec = {"property": prop_id, "part": part_name, "bucket": bucket, "detail": detail, "case": case}
+    if sys.flags.optimize:
+        rec["python_optimize"] = int(sys.flags.optimize)       # found in the 'python -O' part of the run: replayed the same way
+        path = path[:-5] + "-pyO.json"
     with open(path, "w") as f:
-        json.dump({"property": prop_id, "part": part_name, "bucket": bucket,
-                   "detail": detail, "case": case}, f, indent=1, sort_keys=True, default=repr)
+        json.dump(rec, f, indent=1, sort_keys=True, default=repr)
     return path
 
 
@@ -425,6 +431,16 @@ def run_check(mod_name, tier, seed, replay=None, only_part=None):
     for path in replay_files:
         with open(path) as f:
             r = json.load(f)
+        if bool(r.get("python_optimize")) != bool(sys.flags.optimize):
+            if replay:
+                # a case of the other interpreter mode: replay it there
+                env = dict(os.environ, PYTHONOPTIMIZE=str(r.get("python_optimize") or ""), VERIF_OPT_CHILD="1")
+                if not r.get("python_optimize"):
+                    env.pop("PYTHONOPTIMIZE")
+                import subprocess
+                return subprocess.call([sys.executable, os.path.join(VERIF, "run_check.py"), prop_id, "--tier", tier,
+                                        "--replay", path], env=env)
+            continue        # (the run in the other mode replays it)
         part = all_parts.get(r["part"])
         if part is None:
             raise HarnessError(f"replay {path}: unknown part {r['part']}")
@@ -561,7 +577,61 @@ def run_check(mod_name, tier, seed, replay=None, only_part=None):
               f"distinct_nontrivial={len(total['nt'])} violations={len(out_lines)} wall={ev['wall_s']}s")
         if os.environ.get("VERIF_VERBOSE"):
             print(json.dumps(ev["coverage"]["classes"], indent=1))
+        if not out_lines and not sys.flags.optimize and os.environ.get("VERIF_NO_OPT_RUN") != "1":
+            rc_o = _optimized_interpreter_run(prop_id, tier, seed, only_part, ev)
+            if rc_o:
+                return rc_o
     return 1 if out_lines else 0
+
+
+OPT_FRACTION = 0.2
+
+
+def _optimized_interpreter_run(prop_id, tier, seed, only_part, ev):
+    """the same check once more, at OPT_FRACTION of its size, in an interpreter that strips assert statements
+    (PYTHONOPTIMIZE=1 / python -O) - an interpreter mode, not an input: what a property promises does not depend on it.
+    Its violations are this check's violations; its counts are added to the evidence under coverage.optimized_interpreter_run"""
+    import subprocess
+    import tempfile
+    tmp = tempfile.mkdtemp(prefix="verif_pyO_")
+    try:
+        env = dict(os.environ, PYTHONOPTIMIZE="1", VERIF_OPT_CHILD="1", VERIF_EVIDENCE_DIR=tmp, VERIF_SEED=str(seed),
+                   VERIF_EXAMPLES_SCALE=str(SCALE * OPT_FRACTION))
+        cmd = [sys.executable, os.path.join(VERIF, "run_check.py"), prop_id, "--tier", tier]
+        if only_part:
+            cmd += ["--part", only_part]
+        r = subprocess.run(cmd, env=env, capture_output=True, text=True)
+        if r.returncode not in (0, 1):
+            raise HarnessError("python -O part of the run failed:\n" + r.stderr[-2000:])
+        summary = None
+        for ln in r.stdout.splitlines():
+            if ln.startswith("VIOLATION "):
+                print(ln)
+            elif ln.startswith("# %s bucket=" % prop_id):
+                print(ln.replace(" bucket=", " [python -O] bucket=", 1))
+            elif ln.startswith("# %s tier=" % prop_id):
+                summary = ln
+        info = {"interpreter": "PYTHONOPTIMIZE=1", "fraction_of_cases": OPT_FRACTION, "violations": 1 if r.returncode else 0}
+        try:
+            with open(os.path.join(tmp, prop_id + ".json")) as f:
+                ce = json.load(f)
+            info.update(generated_cases=ce["coverage"]["generated_cases"], evaluations=ce["coverage"]["evaluations"],
+                        distinct_nontrivial=ce["coverage"]["distinct_nontrivial"], violations=ce["violations"],
+                        wall_s=ce["wall_s"])
+        except Exception:   # noqa  (--part runs write no evidence)
+            pass
+        if summary:
+            print(summary.replace(" tier=", " [python -O] tier=", 1))
+        if not only_part:
+            ev["coverage"]["optimized_interpreter_run"] = info
+            ev["violations"] = ev.get("violations", 0) + info.get("violations", 0)
+            evdir = os.environ.get("VERIF_EVIDENCE_DIR") or os.path.join(VERIF, "evidence")
+            with open(os.path.join(evdir, prop_id + ".json"), "w") as f:
+                json.dump(ev, f, indent=1, sort_keys=True)
+        return r.returncode
+    finally:
+        import shutil
+        shutil.rmtree(tmp, ignore_errors=True)
 
 
 CHECKS = {}
